@@ -1214,6 +1214,43 @@ Proof.
   rewrite cast32_id by (unfold in32; lia). reflexivity.
 Qed.
 
+(* PReLU with a constant, channel-uniform alpha: convert_prelu + convert_lrelu_to_lut equal the Prelu kernel *)
+Lemma lut_prelu_correct_lemma zi zo azp acode ids idsh als alsh qmin qmax x :
+  same8 x zi -> same8 acode azp -> code8 zo ->
+  in_int 32 ids = true -> in_int 32 als = true -> 9 <= idsh <= 62 -> 16 <= alsh <= 62 ->
+  vela_prelu_entry zi zo azp acode ids idsh als alsh qmin qmax x =
+    Some (PReluRef zi zo azp acode ids (31 - idsh) als (31 - alsh) qmin qmax x).
+Proof.
+  unfold code8, same8. intros Hx Ha Hzo Hids Hals Hs1 Hs2.
+  apply in_int32_true in Hids. apply in_int32_true in Hals.
+  unfold vela_prelu_entry, vela_prelu_alpha_scalar, vela_lrelu_entry, PReluRef. cbv zeta.
+  rewrite (cast32_id (x - zi)) by (unfold in32; lia).
+  rewrite (cast32_id (acode - azp)) by (unfold in32; lia).
+  destruct (Z.ltb_spec x zi); destruct (Z.geb_spec (x - zi) 0); try lia.
+  - assert (Hd : -65535 <= (acode - azp) * (x - zi) <= 65535) by nia.
+    replace ((x - zi) * (acode - azp)) with ((acode - azp) * (x - zi)) by lia.
+    rewrite (cast32_id ((acode - azp) * (x - zi))) by (unfold in32; lia).
+    destruct (mid_shift_in32 ((acode - azp) * (x - zi)) alsh Hd ltac:(lia)) as [Hp Hb].
+    rewrite mbqm_gen_closed by (assumption || lia). cbn [obind].
+    rewrite MBQM_closed by (assumption || lia || (unfold in32; lia)).
+    pose proof (mbqm_c_abs ((acode - azp) * (x - zi)) als alsh Hals ltac:(lia) Hp).
+    rewrite cast32_id by (unfold in32; lia). f_equal. unfold clampZ. f_equal. f_equal. lia.
+  - destruct (small_shift_in32 (x - zi) idsh ltac:(lia) ltac:(lia)) as [Hp Hb].
+    rewrite mbqm_gen_closed by (assumption || lia). cbn [obind].
+    rewrite MBQM_closed by (assumption || lia || (unfold in32; lia)).
+    pose proof (mbqm_c_abs (x - zi) ids idsh Hids ltac:(lia) Hp).
+    rewrite cast32_id by (unfold in32; lia). f_equal. unfold clampZ. f_equal. f_equal. lia.
+Qed.
+
+Example lut_prelu_example :
+  (* int8, all scales per the TFLite converter: alpha code -96 with zero point -128, alpha scale 2^-7: slope 0.25;
+     ifm_scale = ofm_scale, zero points 0: code -100 -> -25 *)
+  vela_prelu_entry 0 0 (-128) (-96) 1073741824 30 1073741824 37 (-128) 127 (-100) = Some (-25) /\
+  PReluRef 0 0 (-128) (-96) 1073741824 1 1073741824 (-6) (-128) 127 (-100) = -25 /\
+  (* without the alpha zero point the slope would be -0.75 and the entry 75 *)
+  vela_lrelu_entry 0 0 1073741824 30 (-96) 1073741824 37 (-128) 127 (-100) = Some 75.
+Proof. vm_compute. repeat split. Qed.
+
 Example lut_lrelu_example :
   vela_lrelu_entry (-128) (-128) 1073741824 30 1 1717986918 34 (-128) 127 (-100) = Some (-100) /\
   vela_lrelu_entry 3 (-5) 1073741824 31 1 1717986918 34 (-128) 127 (-100) = Some (-15) /\
